@@ -6,7 +6,7 @@ from props.textcommon import run_text_tool, model_inputs, out_lines, input_lines
 
 GEN_FILES = ["GenText"]
 RULE = ("texts of 0..8 lines drawn from {numbered (1-9 then digits, up to 25 digits), digits-only, starting with 0, blank, leading blanks, "
-        "plain, non-ASCII}; 1..3 inputs as files (LF/CRLF/CR, with/without final newline) and/or stdin; start/increment in 1..10^4 "
+        "plain, non-ASCII, holding VT/FF/FS/GS/RS/NEL/LS/PS (which are not line ends), 255..8193 characters long}; 1..3 inputs as files (LF/CRLF/CR, with/without final newline) and/or stdin; start/increment in 1..10^4 "
         "(boundary values first), width 0..12; options given or left to their defaults. signature = sorted feature set "
         "{numbered, unnumbered, unnumbered-after-numbered, zero-led, blank, pad, multi-input, stdin, crlf, no-final-nl, defaults, big-number}; "
         "non-trivial = contains both a numbered and an unnumbered line, or more than one input")
@@ -63,6 +63,13 @@ def gen_line(rng):
         return ""
     if r < 0.65:
         return rng.choice([" ", "  ", "\t"]) + rng.choice(["10 X", "", "REM"])
+    if r < 0.70:
+        # characters str.splitlines() cuts on but a text file read line by line does not, inside and at the end of a line
+        x = rng.choice(["\x0b", "\x0c", "\x1c", "\x1d", "\x1e", "\x85", "\u2028", "\u2029"])
+        return rng.choice(["PRINT \"a" + x + "b\"", "10 REM" + x, x + "20 X", "A" + x + "30 B" + x])
+    if r < 0.73:
+        n = rng.choice([255, 256, 257, 1024, 4096, 8192, 8193])
+        return (rng.choice(["", "10 ", "REM "]) + "x" * n)[:n]
     return rng.choice(["PRINT 1", "REM x", "é", "A$=\"1\"", "GOTO 10", "-5", "+3", "٣٤"]) + body
 
 
